@@ -541,6 +541,25 @@ def getDash (st : St) (t : Nat) (id : Nat) : St × Option Det :=
           let d' := folderMeta fs d fid
           ({ st with det := st.det.put id d' }, some d')
 
+/-- one row of `listItems`: the item's details are read through getDashboard (which refreshes stale folder
+metadata on the way) -/
+def listRow (fs : FS) (t : Nat) (acc : St × List Row) (e : Nat × Item) : St × List Row :=
+  if e.1 = 0 then acc else
+  let r := getDash acc.1 t e.1
+  let isD := decide (e.2.ty = .dash)
+  let row : Row := {
+    id := e.1, name := e.2.name, ty := e.2.ty, parent := e.2.parent,
+    parentName := (match e.2.parent with
+      | some p => if p = 0 then [] else ((fs.items.get p).map (·.name)).getD []
+      | none => []),
+    fullPath := joinPath (pathNames fs (fuel fs) (some e.1)),
+    fav := isD && ((r.2.map (·.fav)).getD false),
+    payload := if isD then ((r.2.map (·.payload)).getD "") else "" }
+  (r.1, acc.2 ++ [row])
+
+def listFold (fs : FS) (t : Nat) (items : List (Nat × Item)) (acc : St × List Row) : St × List Row :=
+  items.foldl (listRow fs t) acc
+
 def step (st : St) : Op → St × Out
   | .createDash t name payload parent =>
     let fs := st.fs t
@@ -674,23 +693,7 @@ def step (st : St) : Op → St × Out
         (fs.items.get c).map (fun ci => (c, ci.name, ci.ty,
           if ci.ty = .folder then ((fs.order.get c).getD []).length else 0)))
       (st, .folder it.name it.ty kids (crumbs fs (fuel fs) (some id)))
-  | .list t =>
-    -- every item's details are read through getDashboard (refreshing stale folder metadata on the way)
-    let fs := st.fs t
-    let (st', rows) := fs.items.foldl (fun (acc : St × List Row) e =>
-      if e.1 = 0 then acc else
-      let (s1, d) := getDash acc.1 t e.1
-      let isD := decide (e.2.ty = .dash)
-      let row : Row := {
-        id := e.1, name := e.2.name, ty := e.2.ty, parent := e.2.parent,
-        parentName := (match e.2.parent with
-          | some p => if p = 0 then [] else ((fs.items.get p).map (·.name)).getD []
-          | none => []),
-        fullPath := joinPath (pathNames fs (fuel fs) (some e.1)),
-        fav := isD && ((d.map (·.fav)).getD false),
-        payload := if isD then ((d.map (·.payload)).getD "") else "" }
-      (s1, acc.2 ++ [row])) (st, [])
-    (st', .rows rows)
+  | .list t => ((listFold (st.fs t) t (st.fs t).items (st, [])).1, .rows (listFold (st.fs t) t (st.fs t).items (st, [])).2)
   | .favorite _ id =>
     match st.det.get id with
     | none => (st, .res .notFound)
@@ -711,5 +714,221 @@ def Op.tenant : Op → Option Nat
   | .restart => none
 
 end Dash
+
+/-! ## contact points (pkg/alerts/alertsqlite/alerts_sqlite.go, sqlite through gorm)
+
+Table `contacts` (primary key contact_id, UNIQUE contact_name — unique over ALL orgs, org_id) with the
+many-to-many association `Slack`.  Mirrors CreateContact :481 (a contact with the same name exists ⇒ returns
+nil WITHOUT creating anything), UpdateContactPoint :512 (no org check; `Association("Slack").Clear()` only
+when the new list is not empty, and BEFORE the `Save` whose UNIQUE failure is then reported — the clear is
+not rolled back; the saved row carries the caller's org id), DeleteContactPoint :663 (no org check),
+GetAllContactPoints :503.  Ids are UUIDs in the code, consecutive numbers (from 1) here. -/
+namespace Contact
+
+structure Row where
+  name : Key
+  org : Nat
+  pager : String
+  slack : List String
+  deriving DecidableEq
+
+structure St where
+  rows : AL Nat Row
+  next : Nat
+
+def init : St := { rows := [], next := 1 }
+
+inductive Op where
+  | create (t : Nat) (name : Key) (pager : String) (slack : List String)
+  | update (t : Nat) (id : Nat) (name : Key) (pager : String) (slack : List String)
+  | delete (t : Nat) (id : Nat)
+  | list (t : Nat)
+  | restart
+
+inductive Out where
+  | res (r : Res)
+  | created (id : Nat)
+  | notCreated            -- CreateContact answered nil and created nothing
+  | saveFailed            -- UpdateContactPoint: the Save failed (UNIQUE contact_name)
+  | rows (l : List (Nat × Row))
+  | restarted
+  deriving DecidableEq
+
+def nameUsed (rows : AL Nat Row) (name : Key) (except : Option Nat) : Bool :=
+  rows.any (fun e => decide (e.2.name = name) && decide (some e.1 ≠ except))
+
+def step (st : St) : Op → St × Out
+  | .create t name pager slack =>
+    if nameUsed st.rows name none then (st, .notCreated) else
+    ({ rows := st.rows.put st.next { name := name, org := t, pager := pager, slack := slack }, next := st.next + 1 },
+     .created st.next)
+  | .update t id name pager slack =>
+    match st.rows.get id with
+    | none => (st, .res .notFound)
+    | some r =>
+      let r1 : Row := if slack = [] then r else { r with slack := [] }
+      if nameUsed st.rows name (some id) then ({ st with rows := st.rows.put id r1 }, .saveFailed) else
+      ({ st with rows := st.rows.put id { name := name, org := t, pager := pager, slack := if slack = [] then r.slack else slack } },
+       .res .ok)
+  | .delete _ id =>
+    match st.rows.get id with
+    | none => (st, .res .notFound)
+    | some _ => ({ st with rows := st.rows.del id }, .res .ok)
+  | .list t => (st, .rows (st.rows.filter (fun e => e.2.org = t)))
+  | .restart => (st, .restarted)
+
+def run (st : St) : List Op → St × List Out
+  | [] => (st, [])
+  | op :: r =>
+    let (st1, o) := step st op
+    let (st2, os) := run st1 r
+    (st2, o :: os)
+
+/-- abstract state: (org, contact id) ↦ (name, pager, slack list) -/
+def abs (st : St) : Spec Nat Nat (Key × String × List String) :=
+  fun t id => match st.rows.get id with
+    | some r => if r.org = t then some (r.name, r.pager, r.slack) else none
+    | none => none
+
+/-- the documented keyed store: a create is stored under a fresh id (`next`), update / delete address the
+caller's own contact -/
+def specStep (s : Spec Nat Nat (Key × String × List String)) (next : Nat) : Op → Spec Nat Nat (Key × String × List String)
+  | .create t name pager slack => s.set t next (some (name, pager, slack))
+  | .update t id name pager slack => (s.update t id (name, pager, slack)).1
+  | .delete t id => (s.delete t id).1
+  | _ => s
+
+def OutOk (s : Spec Nat Nat (Key × String × List String)) (next : Nat) : Op → Out → Prop
+  | .create _ _ _ _, o => o = .created next
+  | .update t id name pager slack, o => o = .res (s.update t id (name, pager, slack)).2
+  | .delete t id, o => o = .res (s.delete t id).2
+  | .list t, .rows l =>
+    (l.map Prod.fst).Nodup ∧ ∀ id r, (id, r) ∈ l ↔ (s t id = some (r.name, r.pager, r.slack) ∧ r.org = t)
+  | .restart, o => o = .restarted
+  | _, _ => False
+
+def Refines : Spec Nat Nat (Key × String × List String) → St → List Op → Prop
+  | _, _, [] => True
+  | s, st, op :: r =>
+    OutOk s st.next op (step st op).2 ∧ abs (step st op).1 = specStep s st.next op ∧
+    Refines (specStep s st.next op) (step st op).1 r
+
+/-- guard of one step: the name of a create / update is used by no other contact (of ANY org), an update
+with an empty Slack list meets an empty stored list, update and delete address a contact of the caller's org
+(or no contact at all) -/
+def stepClean (st : St) : Op → Bool
+  | .create _ name _ _ => !nameUsed st.rows name none
+  | .update t id name _ slack =>
+    match st.rows.get id with
+    | none => true
+    | some r => decide (r.org = t) && !nameUsed st.rows name (some id) && (!slack.isEmpty || r.slack.isEmpty)
+  | .delete t id =>
+    match st.rows.get id with
+    | none => true
+    | some r => decide (r.org = t)
+  | _ => true
+
+def Clean : St → List Op → Bool
+  | _, [] => true
+  | st, op :: r => stepClean st op && Clean (step st op).1 r
+
+def Op.tenant : Op → Option Nat
+  | .create t _ _ _ => some t | .update t _ _ _ _ => some t | .delete t _ => some t | .list t => some t
+  | .restart => none
+
+end Contact
+
+/-! ## lookup files (pkg/lookups/lookups.go)
+
+A directory of files under `<data>/lookups/`; no in-memory state and NO tenant dimension (the handlers
+take no org id).  UploadLookupFile :39 (the name must be a simple file name; ".csv" / ".csv.gz" is appended
+unless the name already ends in one of them, case-insensitively; an existing file is replaced only with
+overwrite=true, otherwise 409), GetLookupFile :173, DeleteLookupFile :201, GetAllLookupFiles :133. -/
+namespace Lookup
+
+def asciiLower (c : Nat) : Nat := if 65 ≤ c ∧ c ≤ 90 then c + 32 else c
+
+def endsWithCI (name suffix : Key) : Bool := (name.map asciiLower).reverse.take suffix.length = suffix.reverse
+
+def csv : Key := [46, 99, 115, 118]
+def csvgz : Key := [46, 99, 115, 118, 46, 103, 122]
+
+/-- the file name an upload is stored under -/
+def norm (name : Key) (gz : Bool) : Key :=
+  if endsWithCI name csv || endsWithCI name csvgz then name else name ++ (if gz then csvgz else csv)
+
+structure St where
+  files : AL Key String
+
+def init : St := { files := [] }
+
+inductive Op where
+  | upload (name : Key) (content : String) (overwrite gz : Bool)
+  | get (name : Key)
+  | delete (name : Key)
+  | list
+  | restart
+
+inductive Out where
+  | res (r : Res)
+  | stored (name : Key)
+  | content (c : String)
+  | names (l : List Key)
+  | restarted
+  deriving DecidableEq
+
+def step (st : St) : Op → St × Out
+  | .upload name content overwrite gz =>
+    if !Alias.validIndex name then (st, .res .invalid) else
+    let final := norm name gz
+    match st.files.get final with
+    | some _ => if overwrite then ({ files := st.files.put final content }, .stored final) else (st, .res .exists_)
+    | none => ({ files := st.files.put final content }, .stored final)
+  | .get name =>
+    match st.files.get name with
+    | some c => (st, .content c)
+    | none => (st, .res .notFound)
+  | .delete name =>
+    match st.files.get name with
+    | some _ => ({ files := st.files.del name }, .res .ok)
+    | none => (st, .res .notFound)
+  | .list => (st, .names st.files.keys)
+  | .restart => (st, .restarted)
+
+/-- abstract state: one tenant (`Unit`), file name ↦ content -/
+def abs (st : St) : Spec Unit Key String := fun _ k => st.files.get k
+
+def specStep (s : Spec Unit Key String) : Op → Spec Unit Key String
+  | .upload name content overwrite gz =>
+    if !Alias.validIndex name then s else
+    if overwrite then (s.put () (norm name gz) content).1 else (s.create () (norm name gz) content).1
+  | .delete name => (s.delete () name).1
+  | _ => s
+
+/-- `o` is the documented answer to `op` in the abstract state `s` -/
+def OutOk (s : Spec Unit Key String) : Op → Out → Prop
+  | .upload name content overwrite gz, o =>
+    o = (if !Alias.validIndex name then .res .invalid
+         else if overwrite then .stored (norm name gz)
+         else if (s.create () (norm name gz) content).2 = .ok then .stored (norm name gz) else .res .exists_)
+  | .get name, o => o = (match s () name with | some c => .content c | none => .res .notFound)
+  | .delete name, o => o = .res (s.delete () name).2
+  | .list, .names l => l.Nodup ∧ ∀ k, k ∈ l ↔ s () k ≠ none
+  | .restart, o => o = .restarted
+  | _, _ => False
+
+def Refines : Spec Unit Key String → St → List Op → Prop
+  | _, _, [] => True
+  | s, st, op :: r =>
+    OutOk s op (step st op).2 ∧ abs (step st op).1 = specStep s op ∧ Refines (specStep s op) (step st op).1 r
+
+def run (st : St) : List Op → St × List Out
+  | [] => (st, [])
+  | op :: r =>
+    let (st1, o) := step st op
+    let (st2, os) := run st1 r
+    (st2, o :: os)
+
+end Lookup
 
 end SigModel.KV
